@@ -194,6 +194,43 @@ pub fn run(rep: &mut Rep) {
             }
         }
     }
+    // (b2) every length 0..=320 (and around 65535 where constructible) of each size-tunable member
+    //      on its own, each probed in the window around its exact size: a fit predicate that is
+    //      wrong for one particular length (a head-width boundary, an exact constant) shows here
+    let tunable: Vec<(&'static str, usize)> = vec![
+        ("LargeBlobs", ctap_types::sizes::LARGE_BLOB_MAX_FRAGMENT_LENGTH.min(3008)),
+        ("MakeCredential", 676),
+        ("GetAssertion", 676),
+    ];
+    for (kind, cap) in tunable {
+        let mut lens: Vec<usize> = (0..=320usize.min(cap)).collect();
+        for extra in [511usize, 512, 513, 676, 1023, 1024, 1025, 3007, 3008] {
+            if extra <= cap {
+                lens.push(extra);
+            }
+        }
+        for len in lens {
+            case += 1;
+            if !rep.mine(case) {
+                continue;
+            }
+            let mut rng = Rng::derive(seed, "c17-len", case);
+            let mut c = Ctl::new(&mut rng);
+            c.top_mask = Some(if kind == "LargeBlobs" { 1 } else { 0 });
+            c.small = true;
+            c.bulk = Some(len);
+            let (r, m) = gen_response(kind, &mut c);
+            let size = 1 + body_len(&m);
+            if !rep.begin(&format!("{}/every-length", kind)) {
+                continue;
+            }
+            rep.input_hash(crate::rng::hash_bytes(&expected_bytes(&m)) ^ size as u64);
+            for n in caps_for(size) {
+                judge_at(rep, kind, &r, &m, n);
+                rep.count("capacity_probes", 1);
+            }
+        }
+    }
     // (c) histories: one re-used buffer, 50 different responses in a row
     let n = rep.n(64, 30_000);
     for _ in 0..n * rep.nshards {
